@@ -340,7 +340,7 @@ Section Event.
 Variable crit : R -> bool.
 Variable i : einit.
 Definition event_step (dt o : R) (s : option (option R)) : option R :=
-  kfold RN (cls_event RN crit i) dt 0 0%Z o s.
+  kfold (cls_event RN crit i) dt 0 0%Z o s.
 Definition event_run (l : list (R * R)) : option (option R) :=
   fold_left (fun s p => Some (event_step (fst p) (snd p) s)) l None.
 (* time since the last event; before the first event: the initial value (None = inf / nan), which for
@@ -400,7 +400,7 @@ Qed.
 
 (* ------------------------------------------------------------------ cumulative average = arithmetic mean *)
 Definition ca_run (l : list R) : option R * Z :=
-  fold_left (fun sc o => let c := (snd sc + 1)%Z in (Some (kfold RN (cls_ca RN) 0 0 c o (fst sc)), c)) l (None, 0%Z).
+  fold_left (fun sc o => let c := (snd sc + 1)%Z in (Some (kfold (cls_ca RN) 0 0 c o (fst sc)), c)) l (None, 0%Z).
 Theorem ca_is_mean l :
   ca_run l = match l with [] => (None, 0%Z) | _ => (Some (sum_list l / INR (length l)), Z.of_nat (length l)) end.
 Proof.
@@ -418,7 +418,7 @@ Qed.
 
 (* ------------------------------------------------------------------ pass-through *)
 Theorem passthrough_id (l : list R) :
-  fold_left (fun s o => Some (kfold RN (cls_pass RN) 0 0 0%Z o s)) l None
+  fold_left (fun s o => Some (kfold (cls_pass RN) 0 0 0%Z o s)) l None
   = match rev l with [] => None | x :: _ => Some x end.
 Proof.
   induction l as [|x l IH] using rev_ind; [reflexivity|].
